@@ -583,7 +583,7 @@ namespace {
                 o.b = rnd( 0, 3 );
             }
             break;
-            case OP_OUT: o.a = chance( 75 ) ? 0 : rnd( 0, db.max_mtu + 64 ); break;
+            case OP_OUT: o.a = chance( 75 ) ? 0 : rnd( 23, db.max_mtu + 64 ); break;   // callers hand out at least the minimum ATT MTU
             case OP_WALK: {
                 o.a = ( prop == "C03" ) ? rnd( 2, 3 ) : weighted( { { 35, 0 }, { 40, 1 }, { 15, 2 }, { 10, 3 } } );
                 range( o.data );
@@ -898,6 +898,8 @@ namespace {
             ensure( c );
             if ( given == 0 || given > static_cast< std::size_t >( db.max_mtu ) + 64 )
                 given = db.max_mtu;
+            if ( given < 23 )
+                given = 23;   // no L2CAP layer offers less than the minimum ATT MTU (l2cap_input asserts it)
             std::uint8_t* ob = new std::uint8_t[ given ? given : 1 ];
             std::size_t   os = given;
             srv.l2cap_output( c, ob, os );
